@@ -8,7 +8,7 @@ HERE = os.path.dirname(os.path.abspath(__file__))
 
 CHECKS = {
     "C01": ("exploration", "reference-oracle monitor over generated final-product verifications (ground truth by construction)",
-            "Runs the real in_toto_verify over otherwise-valid scenarios while varying owner signers, caller key map and one post-signing action; "
+            "Runs the real in_toto_verify over otherwise-valid scenarios while varying owner signers, caller key map, summary name and one post-signing action (single-field edit of the wire text, signature corruption, edit of the parsed value in memory, verification of the genuine layout first with the same key objects); "
             "flags every Ok that the construction says must be rejected. Sampled, not exhaustive: held on the executions observed.",
             "signature validity by construction; ring correct; semantics-preserving edits classified by the library's PartialEq", "5 C01"),
     "C02": ("exploration", "reference-oracle monitor over generated link directories",
@@ -18,25 +18,25 @@ CHECKS = {
             "Two-sided comparison of rule application (hook) and of end-to-end verification (steps and inspections) with a Python transliteration of the specification's algorithm; thorough enumerates all rule lists of length <=2 over 40 rules x 125 artifact assignments x 3 reference states.",
             "rulemodel.py is a faithful transliteration; fnmatchcase == glob crate on the portable subset; portable/normalised domain only", "5 C03"),
     "C04": ("exploration", "reference-oracle monitor over constructed signature lists",
-            "Metablock::verify is driven with signature lists whose valid entries are known by construction; soundness, converse (at-most-once lists), permutation invariance and returned content are checked.",
+            "Metablock::verify is driven with signature lists whose valid entries are known by construction; soundness, converse (at-most-once lists), permutation invariance and returned content (incl. the key table of a returned layout as it is in memory) are checked; histories replay genuine signatures on other content; twin contents probe the injectivity of the signed bytes.",
             "signature validity by construction; ring correct", "5 C04"),
     "C05": ("exploration", "metamorphic monitor (single-field edits) + collision dictionaries over deterministic signatures",
             "Every sampled single-field edit of signed metadata that changes the parsed value must invalidate the kept signatures; near-collision string families are compared pairwise through signature->value and bytes->value dictionaries.",
             "ed25519 determinism; library PartialEq defines 'unequal parsed values'", "5 C05"),
     "C06": ("exploration", "three-valued clock-interval monitor over expiry sweeps",
-            "Expiry instants at controlled offsets from the real clock in every RFC 3339 notation, at top level and in delegated layouts; Ok after expiry (w.r.t. the logged call interval) is a violation.",
+            "Expiry instants at controlled offsets from the real clock in every RFC 3339 notation, at top level and in delegated layouts (also next to other evidence), with and without a summary name, with the verifying process in other time zones and with SOURCE_DATE_EPOCH/FAKETIME set, and after other verifications in the same process; Ok after expiry (w.r.t. the logged call interval) is a violation.",
             "real clock only (sweep of the expiry instead of the clock); expiry instant known by construction", "5 C06"),
     "C07": ("exploration", "reference-oracle monitor with repetition over fresh hash seeds",
-            "Multi-party steps with one dissenting link in one aspect, dissenter at smallest/middle/largest key id, 8 repetitions each.",
+            "Multi-party steps with one dissenting link in one aspect (17 kinds incl. digest-less entries and respelled paths), dissenter at smallest/middle/largest key id, optionally co-signing another link, 8 repetitions each; delegated dissent through identical sub-layouts with differing directories.",
             "validity of links by construction", "5 C07"),
     "C08": ("fault_enumeration", "fault enumeration observed through the inspection command's own side effects",
-            "Complete grid failing stage x inspection outcome x rule set x 1-2 inspections x level; each cell is one real verification in a fresh working directory; the inspection command records that it ran.",
+            "Complete grid failing stage (20) x inspection outcome (10) x rule set (6) x 1-2 inspections x level; each cell is one real verification in a fresh working directory; the inspection command records that it ran.",
             "/bin/sh present; stage ground truth by construction", "5 C08"),
     "C09": ("exploration", "round-trip monitor with negative controls",
             "sign (3 construction paths) -> 4 writers -> parse -> verify(#signers) must hold for hostile content and every key type; other key / bit flip / other PSS scheme must fail.",
             "ring correct; serde_json is the wire reader", "5 C09"),
     "C10": ("exploration", "differential monitor against an independent encoder + complete Unicode sweep",
-            "Canonicalisation of 4 spellings per generated value compared with Python's encoder, parsed back, non-integers rejected; every Unicode scalar value as string and key.",
+            "Canonicalisation of 4 spellings per generated value through 5 public routes (incl. a short-writing sink) compared with Python's encoder, parsed back, non-integers rejected; every Unicode scalar value as string and key; complete nesting sweep to the reader's depth limit.",
             "Python json is the reference encoder/parser", "5 C10"),
     "C11": ("exploration", "differential monitor against the reference (OLPC) encoding with OpenSSL as foreign party",
             "Library signatures must equal/verify over Python-computed reference bytes; reference-bytes signatures (raw signer, OpenSSL) must be accepted; key ids recomputed.",
@@ -60,7 +60,7 @@ CHECKS = {
             "Documents from the wire schemas of all statement/predicate versions incl. every optional-field subset and every (declared, actual) type pair: exactly one accepting version, canonical form parses back equal (timestamps to the nanosecond), declared==actual, from_meta carries fields over.",
             "generator schemas transliterate the serde attributes; hook per-version parsers are the library's own", "5 C19"),
     "C13": ("exploration", "repetition monitor over fresh hash seeds and fresh processes",
-            "Order-sensitive scenarios verified R x P times; exactly one (verdict, summary) outcome allowed; distinct iteration orders actually experienced are recorded.",
+            "Order-sensitive scenarios (surplus differing links, co-signed files, one key under two ids, key ids in capitals, interacting inspections and sub-layouts, directory enumeration order on two file systems, histories) verified R x P times (up to 2500 per scenario); exactly one (verdict, summary) outcome allowed; distinct iteration / enumeration orders actually experienced are recorded.",
             "std RandomState gives fresh keys per map/process", "5 C13"),
     "C15": ("exploration", "reference-oracle monitor over delegation trees with exact summary comparison",
             "One failure mode injected into one delegated node of a depth 1-3 tree; positive controls compare the returned summary link with the value computed from the descriptor.",
